@@ -127,6 +127,37 @@ def run_case(case, ctx):
         ri, _ = om.wasserstein_ref(Si.astype(float).tolist(), Ti.astype(float).tolist())
         vi, _ = call_warn(ctx, persim.wasserstein, Si, Ti)
         check_value(ctx, "value-int-dtype", vi, ri, 1e3 * float(kk), "%s arrays x %d" % (np.dtype(dt), kk), Si.tolist(), Ti.tolist())
+    # a diagram against a SLIGHTLY perturbed copy of itself (long bars, tiny moves): the value is a sum of tiny
+    # costs and must be accurate relative to ITSELF (a reduction that subtracts the diagonal costs first, or
+    # an equality test with a tolerance, is off by 1e-8..1e-4 here); checked on both return paths
+    if S == T and S:
+        big = [[10.0 * p_[0], 10.0 * p_[0] + 30.0 + 10.0 * (p_[1] - p_[0])] for p_ in S]        # persistences >= 30
+        for what, Tp in (("relative 2^-25", [[x * (1.0 + 2.0 ** -25) for x in p_] for p_ in big]),
+                         ("absolute 1e-6 pattern", [[p_[0] + 1e-6 * (i + 1), p_[1] - 2e-6] for i, p_ in enumerate(big)])):
+            rp, _ = om.wasserstein_ref(big, Tp)
+            tight = 1e-9 * abs(rp) + 64 * 2.3e-16 * scale_of(big, Tp) * (len(big) + len(Tp))
+            for kw in ({}, {"matching": True}):
+                vp, _ = call_warn(ctx, persim.wasserstein, farr(big), farr(Tp), **kw)
+                vp = vp[0] if isinstance(vp, tuple) else vp
+                ctx.valid()
+                if not (is_num(vp) and abs(float(vp) - rp) <= tight):
+                    ctx.violation("value-perturbed-copy", "wasserstein of a diagram and a slightly perturbed copy (%s, %s) is not the sum of the tiny pairing costs" % (what, kw or "plain"),
+                                  observed=vp, expected=rp, extra={"S": big, "T": Tp, "tolerance": tight})
+    # far from the origin against the empty diagram: every point goes to the diagonal, at a cost that depends on
+    # its persistence only (death - birth is exact in floating point there), so the value is known to round-off
+    # OF THE PERSISTENCES, not of the coordinates
+    if S and not T:
+        import math
+
+        for c in (134217728.0, 1e8 + 0.5, -3e9):
+            Sf = [[p_[0] + c, p_[1] + c] for p_ in S]
+            want = math.fsum((p_[1] - p_[0]) for p_ in Sf) / math.sqrt(2.0)
+            for a1, a2 in ((farr(Sf), np.zeros((0, 2))), (np.zeros((0, 2)), farr(Sf))):
+                vf, _ = call_warn(ctx, persim.wasserstein, a1, a2)
+                ctx.valid()
+                if not (is_num(vf) and abs(float(vf) - want) <= 1e-12 * max(want, 1e-300)):
+                    ctx.violation("value-far-diagonal-cost", "wasserstein of a diagram translated by %r against the empty diagram is not total persistence / sqrt(2)" % c,
+                                  observed=vf, expected=want, extra={"S": Sf})
     # Mx3 input whose extra column is CONSTANT (the documented behaviour counts extra columns in the
     # point-to-point cost, so only a constant annotation column leaves every pairing cost unchanged)
     if S and T:
